@@ -27,13 +27,68 @@ import types
 REAL = {}
 CUR = threading.local()
 STATE = types.SimpleNamespace(root=None, installed=False, shims=[], files=[], flocks={}, mainctr=itertools.count(),
-                              dirty=set(), outside=None, slists=[], shared_private=set(), priv_owner={})
+                              dirty=set(), outside=None, slists=[], shared_private=set(), priv_owner={}, escapes=[], audit=False,
+                              audited=0)
 
 TMP_PREFIXES = ("objects/tmp", "metadata/tmp", "refs/tmp")
 
 
 def cur():
     return getattr(CUR, "w", None)
+
+
+class _InLayer:
+    """Marks 'the layer itself is executing the real operation now' for the audit hook below."""
+    __slots__ = ()
+
+    def __enter__(self):
+        CUR.inreal = getattr(CUR, "inreal", 0) + 1
+
+    def __exit__(self, *a):
+        CUR.inreal -= 1
+
+
+IN_LAYER = _InLayer()
+
+_FS_EVENTS = {"open": 1, "os.rename": 2, "os.remove": 1, "os.rmdir": 1, "os.mkdir": 1, "os.listdir": 1, "os.scandir": 1,
+              "os.chmod": 1, "os.chown": 1, "os.truncate": 1, "os.link": 2, "os.symlink": 2, "os.utime": 1,
+              "os.setxattr": 1, "os.removexattr": 1, "os.mkfifo": 1, "os.mknod": 1}
+
+
+def _audit(event, args):
+    """Escape detector (sys.addaudithook): every path-taking file-system call the interpreter performs on a
+    controlled thread for a path under the store root must have come through this layer.  Anything else (a
+    function imported by name before the layer was installed, a dir_fd-relative call, a primitive the layer does
+    not wrap) is recorded; the engines turn a non-empty record into a harness error - the exploration would not
+    own that operation, so its verdict could not be trusted."""
+    n = _FS_EVENTS.get(event)
+    if n is None or not STATE.installed:
+        return
+    w = getattr(CUR, "w", None)
+    if w is None or getattr(CUR, "inreal", 0):
+        if w is not None:
+            STATE.audited += 1
+        return
+    for x in args[:n]:
+        if isinstance(x, int) or x is None:
+            continue
+        r = relp(x)
+        if r is not None:
+            STATE.escapes.append((event, r))
+            return
+        try:
+            if not os.path.isabs(os.fspath(x)) and any(isinstance(a, int) and a >= 0 for a in args[n:] if a is not None) \
+                    and event != "open":
+                STATE.escapes.append((event, "dir_fd-relative:" + str(x)))
+        except TypeError:
+            pass
+
+
+def check_escapes():
+    from .common import HarnessError
+    if STATE.escapes:
+        e = sorted(set(STATE.escapes))[:5]
+        raise HarnessError("file-system access bypassed the interposition layer: %r" % (e,))
 
 
 def set_root(root):
@@ -134,7 +189,8 @@ def _mk_hook(name, nargs):
             # marked when the operation is actually executed (after the scheduling point)
             STATE.dirty.update(r for r in rs if r is not None)
         try:
-            res = real(*a, **k)
+            with IN_LAYER:
+                res = real(*a, **k)
         except OSError as e:
             w.obs(op, "err", e.errno)
             raise
@@ -170,7 +226,8 @@ def _os_open(path, flags, mode=0o777, *, dir_fd=None):
     if kind != "open-r":
         STATE.dirty.add(r)
     try:
-        fd = REAL["os.open"](path, flags, mode, dir_fd=dir_fd)
+        with IN_LAYER:
+            fd = REAL["os.open"](path, flags, mode, dir_fd=dir_fd)
     except OSError as e:
         w.obs(op, "err", e.errno)
         raise
@@ -304,7 +361,8 @@ def _open(file, mode="r", buffering=-1, encoding=None, errors=None, newline=None
     binary = "b" in mode
     rawmode = mode.replace("b", "").replace("t", "")
     try:
-        raw = HFileIO(file, rawmode, closefd=closefd, opener=opener)
+        with IN_LAYER:
+            raw = HFileIO(file, rawmode, closefd=closefd, opener=opener)
     except OSError as e:
         if opener is None:
             w.obs(op, "err", e.errno)
@@ -677,6 +735,10 @@ def install(locks=True):
     fhs.atexit = types.SimpleNamespace(register=lambda f, *a, **k: f)
     REAL["fhs.yaml"] = fhs.yaml
     fhs.yaml = _yaml_ns(fhs.yaml)
+    if not STATE.audit:
+        import sys
+        sys.addaudithook(_audit)
+        STATE.audit = True
     STATE.installed = True
 
 
